@@ -223,9 +223,16 @@ def gen_W(tier, seed, info):
                          ["c%d" % w, "u%d" % w, "f0", "u0"], ["R%d" % w, "c%d" % w, "f0", "u%d" % w, "u0"]):
                 stats["exhaustive"] += 1
                 yield "W " + " ".join(pre + ["n%d.%d" % (depth_parent, flags)] + tail)
+    # restack requests inside a three-level chain, then the upper levels leave in every order
+    for rs in RESTACK:
+        for target in (2, 3):
+            for tear in (["c1", "u1"], ["u1"], ["c2", "u2"], ["u2"], ["c1", "u1", "u0"], ["r2", "u1", "u2"],
+                         ["r3", "c1", "u1", "u3"], ["r3", "u1", "f0", "u3"], ["c1", "c2", "u2", "u1"], ["u0"]):
+                stats["exhaustive"] += 1
+                yield "W n0.0 n1.0 n2.0 %s%d %s f0" % (rs, target, " ".join(tear))
     info["exhaustive"] = True
     info["exhaustive_scope"] = ("W: 2 tree shapes (two siblings; parent+child) x every sequence of <= %d calls over %s; "
-                                "16 flag combinations x 3 depths x 6 teardown orders" % (L, " ".join(alpha)))
+                                "16 flag combinations x 3 depths x 6 teardown orders; 4 restack kinds x 2 targets in a 3-level chain x 10 teardown orders" % (L, " ".join(alpha)))
     # --- random well-formed lifecycles, without and with events
     n_wf = 2500 if tier == "quick" else 60000
     for _ in range(n_wf):
